@@ -24,7 +24,7 @@ def r07a(ctx, rep, cr):
         return
     slabs = [f[0] for f in a['variants'][0]['fields'] if f[1].startswith(TS) and not re.search(r'Atomic|Option<|Mutex|TensorWal', f[1])]
     snapf = {f[0] for f in b['variants'][0]['fields']}
-    rep.floor('R07a', 'slab fields of SlabRouter', len(slabs), 7)
+    rep.floor('R07a', 'slab fields of SlabRouter', len(slabs), 4)
     snap = rep.require_fn('R07a', cr, SR + '::snapshot')
     rests = [rep.require_fn('R07a', cr, SR + '::restore'), rep.require_fn('R07a', cr, SR + '::restore_with_wal')]
     for fld in slabs:
@@ -170,7 +170,7 @@ def r07b(ctx, rep, cr):
         stop = {b for vv, b in ltg.items() if b != tb}
         v, agg, _ = _arm_aggregate(load, ldefs, tb, stop, TS + 'ScalarValue')
         lmap[w] = v
-    rep.floor('R07b', 'ScalarValue variants', len(stg), 6)
+    rep.floor('R07b', 'ScalarValue variants', len(stg), 4)
     for v in [x['n'] for x in sv['variants']]:
         w = smap.get(v)
         back = lmap.get(w) if w else None
